@@ -218,10 +218,13 @@ def gen_long_body_program(rng):
     cq = rng.random()
     if cq < 0.4:
         clauses.append(['c', [V(v) for v in hv], call('p', *[V(v) for v in hv])])
+        rel = {'caller': 1, 'callee': 0, 'before': 1, 'after': 1, 'extra': [], 'alt': ar}
     elif cq < 0.7:
         clauses.append(['c', [V(v) for v in hv], ['and', call('n', V('_')), call('p', *[V(v) for v in hv])]])
+        rel = {'caller': 1, 'callee': 0, 'before': nfacts, 'after': 1, 'extra': [], 'alt': ar}
     else:
         clauses.append(['c', [V(v) for v in hv], ['and', call('p', *[V(v) for v in hv]), call('n', V('_'))]])
+        rel = {'caller': 1, 'callee': 0, 'before': 1, 'after': nfacts, 'extra': [], 'alt': ar}
     clauses.append(['c', [A('alt') for _ in hv], ['true']])
     for i in range(1, nfacts + 1):
         clauses.append(['n', [_num(i)], ['true']])
@@ -232,7 +235,7 @@ def gen_long_body_program(rng):
     queries = [['p', qv], ['c', qv]]
     if rng.random() < 0.5:
         queries.append(['p', [_num(rng.randrange(1, nfacts + 1))] + qv[:ar - 1]])
-    return {'clauses': clauses, 'queries': queries, 'shape': 'long-body'}
+    return {'clauses': clauses, 'queries': queries, 'shape': 'long-body', 'relations': [rel]}
 
 # ------------------------------------------------------------------ 2. recursive families
 
@@ -309,7 +312,8 @@ def gen_recursive_program(rng):
         rec_goals.append(['cut'])
     elif rec_cut == 'between' and rec_goals:
         rec_goals.insert(rng.randrange(1, len(rec_goals) + 1), ['cut'])
-    rec_goals.append(call(name, *call_args))
+    via = rng.random() < 0.2                                         # mutual recursion: the recursive call goes through a second predicate
+    rec_goals.append(call('rr' if via else name, *call_args))
     if not tail:
         rec_goals.append(rng.choice([call('n', V('_')), ['true'], call('s0'), ['cut'], eq(V('_'), A('k'))]))
     base_body = ['cut'] if base_cut else (['and', ['cut'], call('s0')] if base_cut_then_goal else ['true'])
@@ -319,6 +323,14 @@ def gen_recursive_program(rng):
     rec = [name, rec_args, _conj(rec_goals)]
     clauses = [rec, base] if rec_first else [base, rec]
     ar = len(base_args)
+    if via:
+        fa = [V('A%d' % i) for i in range(ar)]
+        fb = [call(name, *fa)]
+        if rng.random() < 0.3:
+            fb.append(['cut'])
+        clauses.append(['rr', fa, _conj(fb)])
+        if rng.random() < 0.3:
+            clauses.append(['rr', [V('_') for _ in range(ar - 1)] + [A('via')], ['true']] if ar >= 2 else ['rr', [V('_')], ['fail']])
     if later:
         la = [V('_') for _ in range(ar)]
         if ar >= 2:
@@ -355,14 +367,21 @@ def gen_recursive_program(rng):
     whead = [V('W%d' % i) for i in range(len(wvars))] + [V('WG')]
     wcall = [(V('W%d' % wvars.index(a)) if a in wvars else a) for a in wa]
     wb = [call('n', V('WG')), call(name, *wcall)]
+    after = 1
     if rng.random() < 0.4:
         wb.append(call('n', V('_')))
+        after = nfacts
     clauses.append(['w', whead, _conj(wb)])
     clauses.append(['w', [A('alt') for _ in whead], ['true']])
+    # the call the wrapper makes, as a query of its own, and the wrapper: their answers are related (check_relations)
+    if [name, wa] not in queries:
+        queries.append([name, wa])
     queries.append(['w', [V('Q%d' % i) for i in range(len(whead))]])
+    rel = {'caller': len(queries) - 1, 'callee': queries.index([name, wa]), 'before': 1, 'after': after,
+           'extra': [[1, i] for i in range(1, nfacts + 1)], 'alt': len(whead)}
     clauses += facts
     clauses.append(['s0', [], ['true']])
-    return {'clauses': clauses, 'queries': queries, 'shape': 'recursive:%s:%s' % (kind, extra)}
+    return {'clauses': clauses, 'queries': queries, 'shape': 'recursive:%s:%s' % (kind, extra), 'relations': [rel]}
 
 # ------------------------------------------------------------------ 3. first occurrence of a clause-local variable in an = goal
 
@@ -548,3 +567,36 @@ def gen_findall_bag_program(rng):
         if rng.random() < 0.5:
             queries.append([name, [A(rng.choice(atoms)), V('Q0'), V('Q1')]])
     return {'clauses': clauses, 'queries': queries, 'shape': 'findall-bag'}
+
+
+# ------------------------------------------------------------------ the caller's alternatives, as an oracle on the implementation alone
+
+def check_relations(case, io, limit=150):
+    """"the caller's own alternatives are untouched", stated on the implementation's observations only (no model): the generated
+    caller  c(Xs) :- [n(_),] p(Xs) [, n(_)].  c(alt,..).   (resp.  w(Ws, G) :- n(G), r(..Ws..) [, n(_)].  w(alt,..).)  must answer
+    exactly: for every solution of its own generator in order, every answer of the callee (as a query of its own) in order, each as
+    many times as the goal after the call has solutions - and then its own last clause, whatever the callee did with cuts."""
+    if not isinstance(io, dict) or 'queries' not in io:
+        return None
+    for rel in case.get('relations', []):
+        qs = io['queries']
+        if max(rel['caller'], rel['callee']) >= len(qs):
+            continue
+        c, p = qs[rel['caller']], qs[rel['callee']]
+        if c['end'] != 'done' or p['end'] != 'done' or c['count'] > limit or p['count'] > limit:
+            continue
+        alt = [[0, 'alt']] * rel['alt']
+        exp = []
+        if rel['extra']:
+            for e in rel['extra']:
+                for a in p['answers']:
+                    exp += [a + [e]] * rel['after']
+        else:
+            for _ in range(rel['before']):
+                for a in p['answers']:
+                    exp += [a] * rel['after']
+        exp.append(alt)
+        if c['answers'] != exp:
+            return ('the answers of the caller %s are not those of its callee %s (%d answers) inside the caller\'s own alternatives followed by '
+                    'the caller\'s last clause: %d answers instead of %d' % (case['queries'][rel['caller']][0], case['queries'][rel['callee']][0], p['count'], c['count'], len(exp)))
+    return None
